@@ -9,10 +9,11 @@ from props import c03_util as U
 PROP = "C03"
 LEVEL = "proof"
 GEN_UNITS = ["GenUtils", "GenUtils2"]   # GenUtils2: tt_union_rows (S != T)
-COQ_TARGETS = ["Props/C03.vo", "Props/C03Src.vo", "Props/C03Gen2.vo", "Model/Harness.vo", "Model/C03Chk.vo", "Model/C03Chk2.vo"]
-THEOREM_FILES = ["Props/C03.v", "Props/C03Src.v", "Props/C03Gen2.v"]
+COQ_TARGETS = ["Props/C03.vo", "Props/C03Src.vo", "Props/C03Gen2.vo", "Props/C03Kr.vo", "Model/Harness.vo", "Model/C03Chk.vo",
+               "Model/C03Chk2.vo", "Model/C03Kr.vo", "Model/C03Ord0.vo"]
+THEOREM_FILES = ["Props/C03.v", "Props/C03Src.v", "Props/C03Gen2.v", "Props/C03Kr.v"]
 COQ_IMPORTS = ("From Coq Require Import List ZArith Bool QArith Qcanon.\n"
-               "From PV Require Import Base.Index Np.Array Model.Sparse Model.Repr Model.Harness Model.C03Ops Model.C03Chk Model.C03Chk2.\n"
+               "From PV Require Import Base.Index Np.Array Model.Sparse Model.Repr Model.Harness Model.C03Ops Model.C03Chk Model.C03Chk2 Model.C03Kr Model.C03Ord0.\n"
                # case indices >= 5000 are nat literals that make coqc print one warning each; the driver reads the pipe only
                # after the process ends, so the warnings must be silenced or the shard blocks on a full pipe
                'Set Warnings "-abstract-large-number".\n')
@@ -27,7 +28,11 @@ RULE = ("every binary operator (+ - * / and or xor == != < <= > >=) x right-hand
         "result must be fully well-formed (no duplicate, no explicit zero, nnz = rows = values, integer subs dtype, full() works) and "
         "the operands must be unchanged after the call. Wave 3b: every sparse / sparse, S != S2, S == T, S != T request is run a second time "
         "as <op>model: pyttb's raw lists, STORED ORDER INCLUDED, must equal the lists the transliteration over the generated helpers "
-        "returns (Model/C03Gen.v impl_div_sparse_gen, Model/C03Gen2.v); the witnesses of the repaired findings are regression cases")
+        "returns (Model/C03Gen.v impl_div_sparse_gen, Model/C03Gen2.v); the witnesses of the repaired findings are regression cases. "
+        "Wave 4: Kruskal right-hand sides (S * K, S / K; ranks 0..3, integer entries all >= 1 or signed with zeros, all zero patterns of the sparse "
+        "operand on (2,2), (3,), sampled on (2,1,2) and random shapes, factor layouts F / C / view) against spec_mul_k / spec_div_k and list for list "
+        "against the transliterated loops (mulmodel / divmodel); order-0 operands (shape ()): every operator x {sparse, dense, scalar, Kruskal}, "
+        "unary operations and 115 two-step histories, every result must be an empty container")
 CORRESPONDENCE_ONLY = []   # filled below
 EXPLANATION = ("pyttb's raw result (sparse: shape/subs/vals lists; dense: F-order data) is compared in Coq against the executable "
                "element-wise specification spec_ew / spec_div (Model/C03Ops.v; two-step histories: spec_then, Model/C03Chk.v) evaluated on "
@@ -40,6 +45,9 @@ EXPLANATION = ("pyttb's raw result (sparse: shape/subs/vals lists; dense: F-orde
                "Wave 3b: sparse / sparse (repaired code, open finding C03-N7), S != S2 (tt_intersect_rows + boolean scatter), S == T (extract "
                "= tt_ismember_rows + mask assignment) and S != T (GenUtils2.tt_union_rows + tt_setdiff_rows) are transliterated as written and "
                "tied to pyttb list for list (<op>model cases), so a change INSIDE the class of an open finding is reported too. "
+               "Wave 4: S * K and S / K (Kruskal operand) are transliterated loop for loop (Model/C03Kr.v), proved for any commutative ring "
+               "(Props/C03Kr.v) and tied list for list (ops mulmodel / divmodel); order-0 operands (pyttb's empty tensor) must give empty "
+               "containers (Model/C03Ord0.v); operands holding int64 / int32 / int8 / float32 values. "
                "Finite clause of the property text: quick = ALL 4^cells zero-pattern pairs x EVERY binary operator x {sparse, dense} "
                "right-hand side for every shape of <= 4 cells used ((2,2), (3,), (2,1)); thorough adds all pattern pairs of (2,3) "
                "(6 cells, 3 operators per pair, rotating) and (2,2,2) (8 cells, 1 operator per pair, rotating): every pair of patterns up "
@@ -100,7 +108,8 @@ def binary_args(shape, pa, pb, rk, rng, oa=None, ob=None, c=None):
 
 
 def nontrivial(a):
-    return math.prod(a["shape"]) > 1 and (len(a["subs"]) > 0 or len(a.get("bsubs", [])) > 0 or any(a.get("bd", [])))
+    return math.prod(a["shape"]) > 1 and (len(a["subs"]) > 0 or len(a.get("bsubs", [])) > 0 or any(a.get("bd", []))
+                                          or len(a.get("kw", [])) > 0)
 
 
 def ops_for(rk):
@@ -147,7 +156,7 @@ def gen_cases(rng, tier):
                 for op in ops_for("scalar"):
                     add(op, binary_args(shape, pa, pa, "scalar", rng, c=c))
     # 3. unary operations over all patterns
-    unary = ("neg", "not", "ones") + tuple("elemfun:" + k for k in U.ELEMFUNS)
+    unary = ("neg", "not", "ones", "pos") + tuple("elemfun:" + k for k in U.ELEMFUNS)
     for shape in [(2, 2), (3,), (1, 2), (2, 1, 2)]:
         n = math.prod(shape)
         for pa in itertools.product((0, 1), repeat=n):
@@ -243,6 +252,103 @@ def gen_cases(rng, tier):
                 a = binary_args(shape, pa, pb, rk, rng, c=rng.choice((-1, 1)) * (sc + rng.choice((0, 1))))
                 big_values(a, rng, sc)
                 add(op, a)
+    # 10. (wave 4) Kruskal right-hand side: S * K and S / K; ALL zero patterns of the sparse operand on the small shapes, ranks
+    #     0..3, weights / factor entries either all >= 1 (the Kruskal tensor is >= 1 everywhere: the eps clamp is inactive and the
+    #     quotient must be the element-wise one) or signed with zeros (clamp / explicit-zero classes: open findings C03-K2, C03-K3);
+    #     factor matrices F-contiguous, C-contiguous or strided views
+    k = 0
+    kshapes = [(2, 2), (3,), (2, 1, 2)] + ([(2, 3), (1, 3), (2, 2, 2)] if big else [])
+    for shape in kshapes:
+        n = math.prod(shape)
+        pats = list(itertools.product((0, 1), repeat=n))
+        if n > 4 and not big:
+            pats = rng.sample(pats, 10) + [tuple([0] * n), tuple([1] * n)]
+        elif n > 6:
+            pats = rng.sample(pats, 48) + [tuple([0] * n), tuple([1] * n)]
+        for pa in pats:
+            for kind in ("positive", "signed"):
+                for R in ((0, 1, 2, 3) if big else (k % 4, (k + 2) % 4)):
+                    a = kruskal_args(shape, pa, rng, R, kind)
+                    if k % 3:
+                        a["layout"] = {"K": LAYOUTS[k % 3]}
+                    k += 1
+                    for op in ("mul", "div"):
+                        add(op, {kk: vv for kk, vv in a.items()})
+    for _ in range(60 if big else 10):
+        shape = tuple(tgen.rand_shape(rng, maxn=4, maxcells=24))
+        n = math.prod(shape)
+        pa = [int(rng.random() < rng.choice((0.3, 0.7))) for _ in range(n)]
+        a = kruskal_args(shape, pa, rng, rng.randrange(0, 4), rng.choice(("positive", "signed")))
+        for op in ("mul", "div"):
+            add(op, dict(a))
+    # 11. (wave 4) order-0 operands (shape ()): pyttb's empty tensor; every operator x every kind of right-hand side, unary
+    #     operations, two-step histories; every result must be an empty container (ord0_sp_ok / ord0_dense_ok)
+    e0 = {"shape": [], "subs": [], "vals": []}
+    for rk in ("sparse", "dense", "scalar", "kruskal"):
+        for op in (ops_for(rk) if rk != "kruskal" else ("mul", "div")):
+            for c0 in (SCALARS if rk == "scalar" else (None,)):
+                a = dict(e0, rk=rk)
+                if rk == "sparse":
+                    a.update(bsubs=[], bvals=[])
+                elif rk == "dense":
+                    a["bd"] = []
+                elif rk == "scalar":
+                    a["c"] = c0
+                else:
+                    a.update(kw=[], kf=[])
+                cases.append(Case(op, a, False))
+    for op in unary:
+        cases.append(Case(op, dict(e0), False))
+    for k, (op1, (op2, r2)) in enumerate(itertools.product(("add", "mul", "eq", "le", "or"), SECOND_OPS)):
+        a = dict(e0, rk="sparse", bsubs=[], bvals=[], r2=dict(r2))
+        cases.append(Case(f"then:{op1}:{op2}", a, False))
+    # 12. (wave 4) value dtypes: operands holding int64 / int32 / int8 / float32 values (pyttb's own constructors give float64);
+    #     float32 is not combined with division (1/3 is rounded to 24 bits; everything else is exact on small integers)
+    for dt in ("int64", "int32", "int8", "float32"):
+        for _ in range(6 if big else 1):
+            shape = tuple(tgen.rand_shape(rng, maxn=3, maxcells=12))
+            n = math.prod(shape)
+            for rk in ("sparse", "dense", "scalar"):
+                for op in ops_for(rk):
+                    if dt == "float32" and op in ("div", "rdiv"):
+                        continue
+                    pa = [int(rng.random() < 0.5) for _ in range(n)]
+                    pb = [int(rng.random() < 0.6) for _ in range(n)]
+                    a = binary_args(shape, pa, pb, rk, rng, c=rng.choice(SCALARS))
+                    a["dtype"] = dt
+                    cases.append(Case(op, a, nontrivial(a)))
+            for op in unary:
+                subs, vals = sparse_from_pattern(shape, [int(rng.random() < 0.5) for _ in range(n)], rng, rng.choice(ORDERS))
+                cases.append(Case(op, {"shape": list(shape), "subs": subs, "vals": vals, "dtype": dt}, n > 1 and len(subs) > 0))
+    # 13. (wave 4, lead's broadcast) the dense operand is a tensor GROWN by out-of-bounds assignment (its .data is C-ordered, not
+    #     F-contiguous, although no strange array was ever handed over): >= 2 non-singleton modes, every operator, all-distinct
+    #     (non-symmetric) dense values, sparse operand in any stored order
+    for shape in [(2, 3), (3, 1, 2)] + ([(2, 2, 2), (3, 2), (2, 1, 3)] if big else []):
+        n = math.prod(shape)
+        for rep in range(4 if big else 2):
+            for op in U.BINOPS:
+                pa = [int(rng.random() < 0.5) for _ in range(n)]
+                a = binary_args(shape, pa, [1] * n, "dense", rng)
+                distinct = rng.sample(range(-n, n + 3), n)
+                a["bd"] = [0 if rng.random() < 0.25 else v for v in distinct]
+                dd = dict(zip(map(tuple, tgen.all_subs(shape)), a["bd"]))
+                if rep % 2:      # force equal pairs at some stored positions (==, !=, <= ... both ways)
+                    a["vals"] = [dd[tuple(s)] if dd[tuple(s)] and rng.random() < 0.5 else v for s, v in zip(a["subs"], a["vals"])]
+                a["layout"] = {"dense": "grown"}
+                add(op, a)
+    # 14. (wave 4) operands BUILT BY A HISTORY of element assignments S[i] = v in the stored order of the case (reversed / random
+    #     orders: the subscripts are appended in non-ascending order; the shape grows with the assignments), every operator
+    for _ in range(12 if big else 3):
+        shape = tuple(tgen.rand_shape(rng, maxn=3, maxcells=12))
+        n = math.prod(shape)
+        for rk in ("sparse", "dense", "scalar"):
+            for op in ops_for(rk):
+                pa = [int(rng.random() < 0.6) for _ in range(n)]
+                pb = [int(rng.random() < 0.6) for _ in range(n)]
+                a = binary_args(shape, pa, pb, rk, rng, oa=rng.choice(("reversed", "random")), ob=rng.choice(("reversed", "random")),
+                                c=rng.choice(SCALARS))
+                a["layout"] = {"A": "assigned", "B": "assigned"}
+                add(op, a)
     # 9. the witnesses of the repaired findings, as ordinary regression cases
     for op, a in REGRESSION:
         add(op, {k: (list(v) if isinstance(v, list) else v) for k, v in a.items()})
@@ -250,7 +356,11 @@ def gen_cases(rng, tier):
 
 
 # (operator, right-hand side kind) whose transliteration over the generated helpers is tied list for list
-MODEL_OPS = {("div", "sparse"), ("ne", "sparse"), ("eq", "dense"), ("ne", "dense")}
+MODEL_OPS = {("div", "sparse"), ("ne", "sparse"), ("eq", "dense"), ("ne", "dense"), ("mul", "kruskal"), ("div", "kruskal")}
+# S * K as the code is (every stored row kept: open finding C03-K2).  When fixes/C03-7-K1-K2.diff is applied to /repo: flip C03-K1 and
+# C03-K2 to fixed, delete their triggers / witnesses and set this to True (the filtered transliteration impl_mul_k_filtered, theorem
+# C03_mul_kruskal_filtered, becomes the one accepted behaviour of the list-for-list tie `mulmodel`)
+KRUSKAL_FILTERED = False
 IDENT_MODES = ("cancel_all", "cancel_some", "equal", "mixed")
 LAYOUTS = ("F", "C", "view")
 # first steps whose result is sparse, by kind of right-hand side
@@ -288,6 +398,15 @@ def identical_args(shape, pa, rng, mode):
                 bv.append(rng.choice(VALS))
     return {"shape": list(shape), "subs": subs, "vals": vals, "rk": "sparse",
             "bsubs": [list(s) for s in subs], "bvals": bv}
+
+
+def kruskal_args(shape, pa, rng, R, kind):
+    """sparse operand with zero pattern pa (any stored order) and a rank-R Kruskal tensor of the same shape, integer entries"""
+    subs, vals = sparse_from_pattern(shape, pa, rng, rng.choice(ORDERS))
+    pool = (1, 1, 2, 3) if kind == "positive" else (-2, -1, 0, 0, 1, 2)
+    kw = [rng.choice(pool) for _ in range(R)]
+    kf = [[[rng.choice(pool) for _ in range(R)] for _ in range(d)] for d in shape]
+    return {"shape": list(shape), "subs": subs, "vals": vals, "rk": "kruskal", "kw": kw, "kf": kf}
 
 
 def big_values(a, rng, sc):
@@ -342,7 +461,7 @@ def raw_ok(o):
 
 
 def un_fun(op):
-    return {"neg": "Z.opp", "not": "znot", "ones": "zones"}[op]
+    return {"neg": "Z.opp", "not": "znot", "ones": "zones", "pos": "(fun v : Z => v)"}[op]
 
 
 def step_expr(o, zspec=None, xspec=None):
@@ -363,6 +482,15 @@ def step_expr(o, zspec=None, xspec=None):
     return f"dense_eqb {tgen.gdense(o['shape'], o['data'])} {zspec}"
 
 
+def ord0_expr(o):
+    """order-0 operands: the raw result is an empty container of shape ()"""
+    if "exc" in o or o.get("kind") not in ("sparse", "dense") or not raw_ok(o):
+        return "false"
+    if o["kind"] == "sparse":
+        return f"ord0_sp_ok {gobs_sparse_x(o)}"
+    return f"ord0_dense_ok (mkDense {gnlist(o['shape'])} {U.gxlist(o['data'])})"
+
+
 def gr2(a):
     r2 = a["r2"]
     if r2["k"] == "scalar":
@@ -375,6 +503,12 @@ def gr2(a):
 def first_spec(op, a):
     """(zspec, xspec) of a single operation"""
     A = U.gsp(a)
+    if a.get("rk") == "kruskal":
+        if op == "mul":
+            return f"(spec_mul_k {A} {U.gkt(a)})", None
+        if op == "div":
+            return None, f"(spec_div_k {A} {U.gkt(a)})"
+        raise ValueError(op)
     if op == "div":
         return None, f"(spec_div {A} {U.grhs(a)})"
     if op == "rdiv":
@@ -393,6 +527,12 @@ def model_expr(op, a, o):
     if "exc" in o or o.get("kind") != "sparse" or not raw_ok(o):
         return "false"
     A = U.gsp(a)
+    if a["rk"] == "kruskal":
+        if op == "div":
+            return f"div_k_model_ok {gobs_sparse_x(o)} {A} {U.gkt(a)}"
+        if not tgen.all_int(o["vals"]):
+            return "false"
+        return f"{'mul_k_filtered_model_ok' if KRUSKAL_FILTERED else 'mul_k_model_ok'} {gobs_sparse_z(o)} {A} {U.gkt(a)}"
     if op == "div":
         return f"div_model_ok {gobs_sparse_x(o)} {A} {U.gsp(a, 'bsubs', 'bvals')}"
     if not tgen.all_int(o["vals"]):
@@ -410,6 +550,8 @@ def coq_check(c, o):
     ops = c.op.split(":")[1:] if c.op.startswith("then:") else [c.op]
     if len(o["steps"]) != len(ops):
         return "false"
+    if a["shape"] == []:
+        return " && ".join(f"({ord0_expr(st)})" for st in o["steps"])
     if c.op.endswith("model"):
         return model_expr(base_op(c.op), a, o["steps"][0])
     z1, x1 = first_spec(ops[0], a)
@@ -430,6 +572,10 @@ def coq_check(c, o):
 # brute-force oracle (pure Python loops; shares nothing with pyttb or with the Coq model)
 # ---------------------------------------------------------------------------------------------
 def oracle(c, o):
+    if c.args["shape"] == []:
+        return U.judge_ord0(o)
+    if c.op.endswith("model") and c.args.get("rk") == "kruskal":
+        return U.judge_k_asis(o, base_op(c.op), c.args, KRUSKAL_FILTERED)
     if c.op == "divmodel":
         return U.judge_div_asis(o, c.args)
     return U.judge_steps(o, base_op(c.op), c.args, zeros_ok=False)
@@ -463,7 +609,47 @@ def _div_dense_00(c):
     return any(x == 0 and y == 0 for x, y in zip(A, a["bd"]))
 
 
+def _kr(c, ops):
+    return c.args.get("rk") == "kruskal" and c.op in ops and c.args["shape"] != []
+
+
+def _kruskal_sparse_empty(c):
+    """C03-K1: the sparse operand stores nothing and the Kruskal tensor has at least one component (IndexError: the
+    (1, 0)-shaped empty subs array is indexed by column inside the loop over the components; rank 0 never enters it)"""
+    return _kr(c, ("mul", "div", "mulmodel", "divmodel")) and len(c.args["subs"]) == 0 and len(c.args["kw"]) > 0
+
+
+def _mul_kruskal_zero_at_stored(c):
+    """C03-K2: the Kruskal tensor vanishes at a stored subscript (the zero product is stored explicitly: exact class, see
+    theorem C03_mul_kruskal_Z_wf_iff)"""
+    return _kr(c, ("mul",)) and any(U.kvalue(c.args, s) == 0 for s in c.args["subs"])
+
+
+def _div_kruskal_clamped(c):
+    """C03-K3: the eps clamp is visible: K <= 0 at a stored subscript (x / eps instead of x / K), or K = 0 at an implicit
+    zero (0 instead of NaN); this is EXACTLY the class on which the quotient differs from the element-wise one: theorem
+    C03_div_kruskal_exact_iff (integer operands)"""
+    if not _kr(c, ("div",)):
+        return False
+    a = c.args
+    st = {tuple(s) for s in a["subs"]}
+    for s in tgen.all_subs(a["shape"]):
+        k = U.kvalue(a, s)
+        if (tuple(s) in st and k <= 0) or (tuple(s) not in st and k == 0):
+            return True
+    return False
+
+
+def _order0_dense(c):
+    """C03-Z0: order-0 sparse operand (pyttb's empty tensor) with the order-0 dense tensor: + == < <= > >= raise"""
+    return c.args["shape"] == [] and c.args.get("rk") == "dense" and c.op in ("add", "eq", "lt", "le", "gt", "ge")
+
+
 TRIGGERS = {
+    "order0_dense_operand": _order0_dense,
+    "kruskal_sparse_operand_empty": _kruskal_sparse_empty,
+    "mul_kruskal_zero_at_stored": _mul_kruskal_zero_at_stored,
+    "div_kruskal_clamped": _div_kruskal_clamped,
     # only the OPEN findings keep a trigger (C03-N7 sparse/sparse division with differing supports, C03-N5 sparse/dense
     # division at common zeros); A-07 is repaired (e2beb21): its witness is a regression case (REGRESSION)
     "div_sparse_supports_differ": _div_sparse_supports_differ,
@@ -479,9 +665,15 @@ def _witness(op, args):
 
 
 W22 = {"shape": [2, 2]}
+# the Kruskal tensor [[2, 0], [5, 3]] (rank 2), zero at [0, 1]
+WK = {"kw": [2, 1], "kf": [[[1, 0], [2, 1]], [[1, 1], [0, 3]]]}
 WITNESS_INPUTS = {
     "C03-N7": ("div", dict(W22, subs=[[1, 0]], vals=[4], rk="sparse", bsubs=[[1, 1]], bvals=[3])),
     "C03-N5": ("div", dict(W22, subs=[[1, 1], [0, 0]], vals=[3, 2], rk="dense", bd=[1, 0, 2, 3])),
+    "C03-Z0": ("eq", dict(shape=[], subs=[], vals=[], rk="dense", bd=[])),
+    "C03-K1": ("mul", dict(W22, subs=[], vals=[], rk="kruskal", **WK)),
+    "C03-K2": ("mul", dict(W22, subs=[[1, 1], [0, 0], [0, 1]], vals=[3, 2, 5], rk="kruskal", **WK)),
+    "C03-K3": ("div", dict(W22, subs=[[1, 1], [0, 0], [0, 1]], vals=[3, 2, 5], rk="kruskal", kw=[1], kf=[[[1], [-2]], [[1], [3]]])),
 }
 WITNESSES = {k: _witness(*v) for k, v in WITNESS_INPUTS.items()}
 # witnesses of repaired findings (A-07 same support / opposite stored orders; the same on a 1-way tensor; C03-DT2 empty / empty)
@@ -512,5 +704,12 @@ CORRESPONDENCE_ONLY = [
     "two-step histories (A op1 R1) op2 R2, memory layouts of the operands (F / C / strided views), operands unchanged after the call, "
     "integer dtype of the result's subscripts and full() of every sparse result: correspondence only (composition of the per-operator theorems "
     "needs the intermediate to be well-formed, which the theorems give; the Python object identity / layout is not modelled)",
-    "sparse * Kruskal, sparse / Kruskal (not in the property text: scalar, dense, sparse operands): not covered",
+    "sparse / Kruskal where the eps clamp is visible (K <= 0 at a stored subscript, K = 0 at an implicit zero: open finding C03-K3) and sparse * "
+    "Kruskal where K vanishes at a stored subscript (explicit zero stored: open finding C03-K2): the code as it is IS proved (C03_mul_kruskal, "
+    "C03_div_kruskal_ieee) and tied list for list (ops mulmodel / divmodel); the CORRECT result on those classes is checked against the "
+    "executable specification spec_mul_k / spec_div_k only. Memory layout of the factor matrices, Kruskal operand unchanged after the call: "
+    "correspondence only",
+    "order-0 operands (pyttb's shape () = the empty tensor): closed theorems C03_order0_generic / C03_order0_generated for the algorithms that do "
+    "not enumerate the shape / take pyttb's enumeration as a parameter; the remaining paths (== scalar/dense, logical_not via the hand models, dense "
+    "results) by the correspondence checkers ord0_sp_ok / ord0_dense_ok only; open finding C03-Z0 (order-0 dense operand raises)",
 ]
